@@ -345,6 +345,8 @@ def client_stage(ctx: vlib.Ctx, exe: str | None) -> None:
                 cases.append((rs, [stream[:k]], False))     # peer dies in the middle of its reply
         lines, bad = [], 0
         for rs, chunks, complete in cases:
+            if bad >= 3:
+                break       # shown broken; every further exchange may cost a client timeout
             q.put(chunks)
             out, err = io.StringIO(), io.StringIO()
             with contextlib.redirect_stdout(out), contextlib.redirect_stderr(err):
@@ -387,7 +389,7 @@ def client_stage(ctx: vlib.Ctx, exe: str | None) -> None:
                 ctx.broke("C", "client driver", f"{len(model)} results for {len(lines)} inputs")
             else:
                 nb = 0
-                for (rs, chunks, complete), m in zip(cases, model):
+                for (rs, chunks, complete), m in zip(cases[:len(lines)], model):
                     exp = " ".join(hx(json.dumps(r).encode()) for r in rs) if complete else "NONE"
                     if m != exp:
                         nb += 1
